@@ -80,22 +80,25 @@ func (e *Eng) storeTargets(addr ssa.Value, out map[string]bool) {
 	}
 }
 
-// allocRoot follows an address back to the allocation it is derived from, if that is syntactically evident.
-func allocRoot(v ssa.Value) *ssa.Alloc {
-	for i := 0; i < 8; i++ {
+// allocRoot follows an address (or slice value) back to the allocation it is derived from, if that is
+// syntactically evident: a local Alloc, or a make() in the same function.
+func allocRoot(v ssa.Value) ssa.Instruction {
+	for i := 0; i < 10; i++ {
 		switch x := v.(type) {
 		case *ssa.Alloc:
+			return x
+		case *ssa.MakeSlice:
+			return x
+		case *ssa.MakeMap:
 			return x
 		case *ssa.FieldAddr:
 			v = x.X
 		case *ssa.IndexAddr:
-			if _, ok := x.X.Type().Underlying().(*types.Pointer); ok {
-				v = x.X
-			} else if sl, ok := x.X.(*ssa.Slice); ok {
-				v = sl.X
-			} else {
-				return nil
-			}
+			v = x.X
+		case *ssa.Slice:
+			v = x.X
+		case *ssa.ChangeType:
+			v = x.X
 		default:
 			return nil
 		}
@@ -105,7 +108,7 @@ func allocRoot(v ssa.Value) *ssa.Alloc {
 
 // modsetInstr: fresh(a) tells whether allocation a happens inside the code being summarised; stores into
 // such objects do not change any pre-existing location and are left out (see DESIGN, mod-sets).
-func (e *Eng) modsetInstr(in ssa.Instruction, caller *FuncSpec, visiting map[*ssa.Function]bool, out map[string]bool, fresh func(*ssa.Alloc) bool) {
+func (e *Eng) modsetInstr(in ssa.Instruction, caller *FuncSpec, visiting map[*ssa.Function]bool, out map[string]bool, fresh func(ssa.Instruction) bool) {
 	switch x := in.(type) {
 	case *ssa.Store:
 		if a := allocRoot(x.Addr); a != nil && fresh(a) {
@@ -113,6 +116,9 @@ func (e *Eng) modsetInstr(in ssa.Instruction, caller *FuncSpec, visiting map[*ss
 		}
 		e.storeTargets(x.Addr, out)
 	case *ssa.MapUpdate:
+		if a := allocRoot(x.Map); a != nil && fresh(a) {
+			return
+		}
 		mi := (&Run{eng: e}).mapHeaps(nil, x.Map.Type().Underlying().(*types.Map))
 		out[mi.mName], out[mi.domName], out[mi.lenName] = true, true, true
 	case *ssa.Range:
@@ -126,18 +132,21 @@ func (e *Eng) modsetInstr(in ssa.Instruction, caller *FuncSpec, visiting map[*ss
 			}
 		}
 	case *ssa.Call:
-		e.modsetCall(x.Common(), caller, visiting, out)
+		e.modsetCall(x.Common(), caller, visiting, out, fresh)
 	case *ssa.Defer:
-		e.modsetCall(&x.Call, caller, visiting, out)
+		e.modsetCall(&x.Call, caller, visiting, out, fresh)
 	case *ssa.Go:
 		// the spawned goroutine's writes are not part of this function's post-state
 	}
 }
 
-func (e *Eng) modsetCall(c *ssa.CallCommon, caller *FuncSpec, visiting map[*ssa.Function]bool, out map[string]bool) {
+func (e *Eng) modsetCall(c *ssa.CallCommon, caller *FuncSpec, visiting map[*ssa.Function]bool, out map[string]bool, fresh func(ssa.Instruction) bool) {
 	if b, ok := c.Value.(*ssa.Builtin); ok {
 		switch b.Name() {
 		case "copy":
+			if a := allocRoot(c.Args[0]); a != nil && fresh(a) {
+				return
+			}
 			if sl, ok := c.Args[0].Type().Underlying().(*types.Slice); ok {
 				if e.sorts.keyMode && isByteSlice(c.Args[0].Type()) {
 					return
@@ -145,6 +154,9 @@ func (e *Eng) modsetCall(c *ssa.CallCommon, caller *FuncSpec, visiting map[*ssa.
 				e.heapsOfType(sl.Elem(), aElem, out)
 			}
 		case "delete", "clear":
+			if a := allocRoot(c.Args[0]); a != nil && fresh(a) {
+				return
+			}
 			if mt, ok := c.Args[0].Type().Underlying().(*types.Map); ok {
 				mi := (&Run{eng: e}).mapHeaps(nil, mt)
 				out[mi.mName], out[mi.domName], out[mi.lenName] = true, true, true
@@ -211,7 +223,7 @@ func (e *Eng) modsetFunc(fn *ssa.Function, visiting map[*ssa.Function]bool) map[
 	visiting[fn] = true
 	for _, b := range fn.Blocks {
 		for _, in := range b.Instrs {
-			e.modsetInstr(in, nil, visiting, out, func(a *ssa.Alloc) bool { return true })
+			e.modsetInstr(in, nil, visiting, out, func(a ssa.Instruction) bool { return true })
 		}
 	}
 	for _, an := range fn.AnonFuncs {
@@ -230,7 +242,7 @@ func (e *Eng) modsetBlocks(blocks map[*ssa.BasicBlock]bool, caller *FuncSpec) ma
 	out := map[string]bool{}
 	for b := range blocks {
 		for _, in := range b.Instrs {
-			e.modsetInstr(in, caller, map[*ssa.Function]bool{}, out, func(a *ssa.Alloc) bool { return blocks[a.Block()] })
+			e.modsetInstr(in, caller, map[*ssa.Function]bool{}, out, func(a ssa.Instruction) bool { return blocks[a.Block()] })
 		}
 	}
 	// a store through a field address of an atomic or a write via atomic intrinsic on a field
